@@ -283,7 +283,7 @@ func tagOf(T []int, n1, n2, lim, limT int, extra ...string) string {
 	case exact && tied && len(T) == 2:
 		tags = append(tags, "exact-tied-K2")
 	case exact && tied:
-		tags = append(tags, "exact-tied-K3+")
+		tags = append(tags, "exact-tied-Kge3")
 	case exact:
 		tags = append(tags, "exact-untied")
 	case tied:
@@ -336,7 +336,7 @@ func corpus() {
 		mwAuto(c[0], c[1], 1, defLim, defLimT, "corpus")
 	}
 	runDist(2, 2, []int{3, 1}, "corpus+exact-tied-K2")
-	runDist(4, 3, []int{3, 2, 2}, "corpus+exact-tied-K3+")
+	runDist(4, 3, []int{3, 2, 2}, "corpus+exact-tied-Kge3")
 	// extra cases from corpus/C11/*.txt: lines "x1 | x2" of comma separated integers
 	files, _ := filepath.Glob(filepath.Join(os.Getenv("VERIF_ROOT"), "corpus", "C11", "*.txt"))
 	for _, f := range files {
